@@ -13,6 +13,8 @@ import (
 	"github.com/rs/zerolog/log"
 )
 
+const invalidUTF8Replacement = "\uFFFD"
+
 var engineAdminPort = os.Getenv("ENGINE_ADMIN_PORT")
 
 func Run(
@@ -71,11 +73,29 @@ func filterOutInternalRecords(records []common.AccessLog) FilterResult {
 	for _, record := range records {
 		if !record.Internal {
 			filterResult.RecordErrorTransactionIfNeeds(record.RequestID, record.StatusCode)
-			filterResult.AccessLogs = append(filterResult.AccessLogs, AccessLog(record))
+			filterResult.AccessLogs = append(
+				filterResult.AccessLogs,
+				AccessLog(withValidUTF8Keys(record)),
+			)
 		}
 	}
 
 	return filterResult
+}
+
+// withValidUTF8Keys makes the fields that name an aggregate (method, URL,
+// consumer tag, interceptor) valid UTF-8. HAProxy logs header values raw, so
+// these may carry arbitrary bytes, while the state file is JSON, which writes
+// every byte that is not valid UTF-8 as U+FFFD: two keys differing only in
+// such bytes would share one entry of the file and one of them would be lost
+// on read-back. Replacing them here makes memory and file agree, and records
+// whose keys read the same are combined instead.
+func withValidUTF8Keys(record common.AccessLog) common.AccessLog {
+	record.Method = strings.ToValidUTF8(record.Method, invalidUTF8Replacement)
+	record.URL = strings.ToValidUTF8(record.URL, invalidUTF8Replacement)
+	record.ConsumerTag = strings.ToValidUTF8(record.ConsumerTag, invalidUTF8Replacement)
+	record.Interceptor = strings.ToValidUTF8(record.Interceptor, invalidUTF8Replacement)
+	return record
 }
 
 func notifyErrorRecord(tnxErrors *shared_discovery.OnError) {
